@@ -41,7 +41,7 @@ func (c06) Meta() fw.Meta {
 
 func (c06) Cases(tier string) int {
 	if tier == "thorough" {
-		return 20000
+		return 200000
 	}
 	return 600
 }
